@@ -52,7 +52,23 @@ def make_case(ctx, i, small):
         if frs:
             rename_fragment(doc, frs[0]["name"], r.choice(["Schema", "TypedDocumentNode", "OpResult", "OpVariables", "OpQuery"]))
     base["opFiles"] = [{"path": ["ops", "q.graphql"], "doc": doc}]
-    base["typeNames"] = [("OpResult" if d["k"] == "op" else d["name"]) for d in doc["defs"]]
+    # the `generate.name` options that decide what the judged types are called (only the options that are set; Naming.tla has the defaults)
+    nc = {}
+    if r.chance(1, 3):
+        nc["operationResultTypeSuffix"] = r.choice(["Data", "Result", "_R"])
+    if r.chance(1, 3):
+        nc["fragmentTypeSuffix"] = r.choice(["Fragment", "", "_F"])
+    if r.chance(1, 4):
+        nc["capitalizeOperationNames"] = r.chance(1, 2)
+    if r.chance(1, 4):
+        for d in doc["defs"]:
+            if d["k"] == "op":
+                d["name"] = "getThing"
+    if nc:
+        gen["name"] = dict(nc)
+    if r.chance(1, 3):
+        gen.setdefault("export", {})["operationResultType"] = True
+    base["nameCfg"] = nc
     if r.chance(1, 3):
         gen["mode"] = r.choice(["with-loader-ts-4.0", "standalone-ts-4.0"])
     base["configText"] = json.dumps(cfg)
@@ -78,7 +94,7 @@ def fixture_case(ctx, i):
            "extensions": {"nitrogql": {"generate": {"schemaOutput": "./gen/schema.d.ts", "type": {"scalarTypes": {k: "string" for k in scalar_texts}}}}}}
     return {"id": "fx%d" % i, "schemaFiles": files, "opFiles": [{"path": ["ops", "q.graphql"], "doc": d}], "configText": json.dumps(cfg),
             "scalarTexts": scalar_texts, "cfg": {"allowUndefined": True}, "want": {"resolvers": False},
-            "typeNames": [((x["name"][0].upper() + x["name"][1:] + "Result") if x["k"] == "op" else x["name"]) for x in d["defs"]]}
+            "nameCfg": {}}
 
 
 def run_mode(ctx, res, mode):
@@ -136,7 +152,8 @@ def selftest_mode(ctx, mode):
     import copy
     vlib.build_harness()
     vlib.build_cli()
-    cases = [make_case(ctx, i, False) for i in range(8)]
+    cases = [make_case(ctx, i, False) for i in range(24)]
+    cases = [c for c in cases if not c["nameCfg"] and c["opFiles"][0]["doc"]["defs"][0]["name"] == "Op"][:8]       # default naming: OpResult
     vlib.write_ndjson(ctx.path("cases.ndjson"), cases)
     vlib.run_harness(["typegen", vlib.CLI_BIN, ctx.path("cases.ndjson"), ctx.path("events.ndjson"), ctx.path("proj"), "4"])
     muts = []
